@@ -337,3 +337,40 @@ func TestStrictness(t *testing.T) {
 		}
 	}
 }
+
+func TestPlainProfile(t *testing.T) {
+	base := Spec{Salt: bytes.Repeat([]byte{0xa5}, 32), IV: bytes.Repeat([]byte{0x5a}, 16), Secret: []byte("secret"), Password: []byte("pw"),
+		ID: "3198bc9c-6672-5ab3-d995-4942343ae5b6", Address: "00"}
+	for _, s := range []Spec{{KDF: KDFScrypt, N: 2, R: 1, P: 1}, {KDF: KDFScrypt, N: 1024, R: 8, P: 2}, {KDF: KDFPBKDF2, C: 1}, {KDF: KDFPBKDF2, C: 4096}} {
+		s.Salt, s.IV, s.Secret, s.Password, s.ID, s.Address = base.Salt, base.IV, base.Secret, base.Password, base.ID, base.Address
+		f, err := Write(s)
+		if err != nil {
+			t.Fatal(err)
+		}
+		if !PlainProfile(f) {
+			t.Fatalf("writer output is not in the plain profile: %s", f)
+		}
+		for _, edit := range [][2]string{
+			{`"dklen":32`, `"dklen":33`}, {`"dklen":32`, `"dklen":32.0`}, {`"version":3`, `"version":3.0`}, {`"version":3`, `"version":4`},
+			{`"n":`, `"N":`}, {`"c":`, `"c":0`}, {`"n":2,`, `"n":3,`}, {`"r":`, `"r":0`}, {`"a5a5`, `"A5a5`}, {`"a5a5`, `"0xa5a5`}, {`"5a5a5a`, `"5a`},
+			{`aes-128-ctr`, `aes-128-cbc`}, {`"kdf":"`, `"kdf":"x`}, {`hmac-sha256`, `hmac-sha1`}, {`"id":"3198bc9c`, `"id":"3198BC9C`},
+			{`"version":3`, `"version":3,"Version":3`}, {`"crypto":{`, `"crypto":{"mac":"00",`}, {`"mac":"`, `"mac":"00`},
+		} {
+			if !strings.Contains(string(f), edit[0]) {
+				continue
+			}
+			g := strings.Replace(string(f), edit[0], edit[1], 1)
+			if PlainProfile([]byte(g)) {
+				t.Fatalf("edit %q -> %q still in the plain profile: %s", edit[0], edit[1], g)
+			}
+		}
+		if PlainProfile(append(append([]byte{}, f...), f...)) || PlainProfile(f[:len(f)-1]) || PlainProfile([]byte("null")) {
+			t.Fatal("trailing / truncated content accepted")
+		}
+	}
+	s := base
+	s.KDF, s.N, s.R, s.P, s.DKLen = KDFScrypt, 4, 1, 1, 64
+	if f, _ := Write(s); PlainProfile(f) {
+		t.Fatal("dklen 64 is not the plain profile")
+	}
+}
